@@ -99,10 +99,15 @@ def build(spec):
 
     ignore = spec.get('ignore')
 
+    recursive = bool(spec.get('recursive'))
+    w_holder = [None]
+
     def F(x):
         calls.append(x)
         if user_raises and x == arg_of(call_elem):
             raise UserErr(x)
+        if recursive and isinstance(x, int) and x > BASE:
+            w_holder[0](x - 1)          # memoised recursion: the function calls its own decorated self
         return val(x)
 
     if ignore is not None:
@@ -165,6 +170,7 @@ def build(spec):
         kwargs['purge'] = spec['purge']
     dec = cls(**kwargs)
     w = dec(F)
+    w_holder[0] = w
     if arch0 is not None:
         c.__archive__ = A
         c.__swap__ = S
